@@ -794,6 +794,69 @@ fn fn_body_tokens(src: &Src, name: &str) -> R<String> {
     Ok(quote::quote!(#b).to_string())
 }
 
+/// the name of the (first) `bool` parameter of a free function or method
+fn bool_param(ast: &syn::File, fname: &str) -> Option<String> {
+    fn of_sig(sig: &syn::Signature) -> Option<String> {
+        for a in &sig.inputs {
+            if let syn::FnArg::Typed(pt) = a {
+                let ty = &pt.ty;
+                if quote::quote!(#ty).to_string() == "bool" { let p = &pt.pat; return Some(quote::quote!(#p).to_string()); }
+            }
+        }
+        None
+    }
+    for it in &ast.items {
+        match it {
+            Item::Fn(f) if f.sig.ident == fname => return of_sig(&f.sig),
+            Item::Impl(im) => for ii in &im.items { if let ImplItem::Fn(f) = ii { if f.sig.ident == fname { return of_sig(&f.sig); } } },
+            _ => {}
+        }
+    }
+    None
+}
+
+/// Is every call of `method` in `block` control-dependent on `flag` being false — inside `if !flag { … }`, in the else
+/// branch of `if flag { … } else { … }`, or after an `if flag { … return … }`? `None` if `method` is not called here.
+fn call_only_when_false(block: &syn::Block, flag: &str, method: &str) -> Option<bool> {
+    struct V<'a> { flag: &'a str, method: &'a str, ctx: bool, seen: Option<bool> }
+    impl<'ast, 'a> syn::visit::Visit<'ast> for V<'a> {
+        fn visit_expr_method_call(&mut self, m: &'ast syn::ExprMethodCall) {
+            if m.method == self.method { self.seen = Some(self.seen.unwrap_or(true) && self.ctx); }
+            syn::visit::visit_expr_method_call(self, m);
+        }
+        fn visit_expr_if(&mut self, i: &'ast syn::ExprIf) {
+            let c = &i.cond;
+            let ct = quote::quote!(#c).to_string();
+            let saved = self.ctx;
+            if ct == format!("! {}", self.flag) {
+                self.ctx = true; self.visit_block(&i.then_branch); self.ctx = saved;
+                if let Some((_, e)) = &i.else_branch { self.visit_expr(e); }
+            } else if ct == self.flag {
+                self.visit_block(&i.then_branch);
+                if let Some((_, e)) = &i.else_branch { self.ctx = true; self.visit_expr(e); self.ctx = saved; }
+            } else {
+                syn::visit::visit_expr_if(self, i);
+            }
+        }
+        fn visit_block(&mut self, b: &'ast syn::Block) {
+            let saved = self.ctx;
+            for st in &b.stmts {
+                self.visit_stmt(st);
+                // `if flag { … return … }` without else: what follows only runs when the flag is false
+                if let syn::Stmt::Expr(Expr::If(i), _) = st {
+                    let c = &i.cond;
+                    let tb = &i.then_branch;
+                    if quote::quote!(#c).to_string() == self.flag && i.else_branch.is_none() && quote::quote!(#tb).to_string().contains("return") { self.ctx = true; }
+                }
+            }
+            self.ctx = saved;
+        }
+    }
+    let mut v = V { flag, method, ctx: false, seen: None };
+    syn::visit::Visit::visit_block(&mut v, block);
+    v.seen
+}
+
 fn gen_tls(repo: &Path, g: &mut Gen) -> R<()> {
     let q_rel = "server/src/quic.rs";
     let c_rel = "client/src/connection.rs";
@@ -825,7 +888,63 @@ fn gen_tls(repo: &Path, g: &mut Gen) -> R<()> {
     let _ = writeln!(s, "def clientPresentsCertificate : Bool := {presents}");
     let _ = writeln!(s, "/-- the name the client expects in the server's certificate (`endpoint.connect(addr, …)`) -/\ndef serverName : String := {name:?}");
     let _ = writeln!(s, "def sameAlpn : Bool := {}", alpn_s == alpn_c && !alpn_s.is_empty());
-    g.emit("Tls", &[q_rel, c_rel], &s);
+    // ---- the bundled certificate generator (tools/src/commands/gen_certs): what it puts into the three certificates
+    let cb_rel = "tools/src/commands/gen_certs/certificate_builder.rs";
+    let cg_rel = "tools/src/commands/gen_certs/cert_gen.rs";
+    let kp_rel = "tools/src/commands/gen_certs/key_pair.rs";
+    let vr_rel = "tools/src/commands/gen_certs/validity_range.rs";
+    let cb = Src::load(repo, cb_rel)?;
+    let cg = Src::load(repo, cg_rel)?;
+    let kp = Src::load(repo, kp_rel)?;
+    let vr = Src::load(repo, vr_rel)?;
+    let cbf = all_fns(&cb.ast);
+    let body_of = |fns: &BTreeMap<String, syn::Block>, name: &str, rel: &str| -> R<String> {
+        let b = fns.get(name).ok_or_else(|| Shape(format!("{rel}: fn {name} not found")))?;
+        Ok(with_callees(&quote::quote!(#b).to_string(), fns))
+    };
+    let entity = body_of(&cbf, "entity", cb_rel)?;
+    let san = { let t = toks(&entity); match tfind(&t, "SanType :: DnsName (", 0) { Some(i) => t.get(i + 1).cloned().unwrap_or_default(), None => return shape(cb_rel, "entity(): no SanType::DnsName(\"…\")") } };
+    // (`toks` splits the string literal `"localhost"` into `"`, `localhost`, `"`)
+    let eku_of = |name: &str| -> R<&'static str> {
+        let b = body_of(&cbf, name, cb_rel)?;
+        match (b.contains("ExtendedKeyUsagePurpose :: ServerAuth"), b.contains("ExtendedKeyUsagePurpose :: ClientAuth")) {
+            (true, false) => Ok("serverAuth"), (false, true) => Ok("clientAuth"),
+            _ => shape(cb_rel, format!("{name}(): does not name exactly one of ServerAuth / ClientAuth")),
+        }
+    };
+    let server_eku = eku_of("server")?;
+    let client_eku = eku_of("client")?;
+    let ca_body = body_of(&cbf, "ca", cb_rel)?;
+    let ca_is_ca = ca_body.contains("IsCa :: Ca (");
+    let entity_is_ca = entity.contains("IsCa :: Ca (");
+    // validity: `valid_for_days(<n>)` applied unless `no_expiry`, in the CA's and in the entities' construction
+    let days_in = |src: &Src, rel: &str, fname: &str| -> R<(u128, bool)> {
+        let fns = all_fns(&src.ast);
+        let b = fns.get(fname).ok_or_else(|| Shape(format!("{rel}: fn {fname} not found")))?;
+        let t = with_callees(&quote::quote!(#b).to_string(), &fns);
+        let tk = toks(&t);
+        let at = tfind(&tk, "valid_for_days (", 0).ok_or_else(|| Shape(format!("{rel}: {fname}(): no valid_for_days(…) call")))?;
+        let arg = tk.get(at).cloned().unwrap_or_default();
+        let cs = src.consts();
+        let n = if let Ok(v) = arg.replace('_', "").parse::<u128>() { v } else if let Some(e) = cs.get(&arg) { eval_int(e, &cs).map_err(|w| Shape(format!("{rel}: {fname}(): {arg}: {w}")))? } else { return shape(rel, format!("{fname}(): the argument of valid_for_days (`{arg}`) is neither a literal nor a constant")) };
+        if tk.get(at + 1).map(|x| x != ")").unwrap_or(true) { return shape(rel, format!("{fname}(): the argument of valid_for_days is not a single literal or constant")); }
+        // is the call only reached when the function's boolean parameter (`no_expiry`) is false?
+        let flag = bool_param(&src.ast, fname).ok_or_else(|| Shape(format!("{rel}: {fname}() has no bool parameter")))?;
+        let guarded = call_only_when_false(b, &flag, "valid_for_days").ok_or_else(|| Shape(format!("{rel}: {fname}(): valid_for_days is called through a helper: cannot tell whether `{flag}` guards it")))?;
+        Ok((n, guarded))
+    };
+    let (ca_days, ca_guarded) = days_in(&cg, cg_rel, "generate_ca_cert")?;
+    let (en_days, en_guarded) = days_in(&kp, kp_rel, "build")?;
+    let signed = { let fns = all_fns(&kp.ast); body_of(&fns, "build", kp_rel)?.contains("serialize_der_with_signer (") };
+    let vrb = { let fns = all_fns(&vr.ast); body_of(&fns, "new", vr_rel)? };
+    let symmetric = tseq(&vrb, &["now_utc () . checked_sub ( $ )", "now_utc () . checked_add ( $ )"]);
+    let sid = vr.const_int("SECONDS_IN_DAY").unwrap_or(86_400);
+    let _ = writeln!(s, "\ninductive Eku where\n  | serverAuth | clientAuth\n  deriving DecidableEq, Repr\n");
+    let _ = writeln!(s, "/-- {cb_rel}: the DNS name put into server and client certificates, their extended key usage, who is a CA -/\ndef genEntitySan : String := {san:?}\ndef genServerEku : Eku := .{server_eku}\ndef genClientEku : Eku := .{client_eku}\ndef genCaIsCa : Bool := {ca_is_ca}\ndef genEntityIsCa : Bool := {entity_is_ca}");
+    let _ = writeln!(s, "/-- {kp_rel}: entity certificates are signed with the CA's key (`serialize_der_with_signer(ca)`) -/\ndef genEntitySignedByCa : Bool := {signed}");
+    let _ = writeln!(s, "/-- {cg_rel}, {kp_rel}: `valid_for_days(n)`, skipped with `--no-expiry` (then the library's default dates apply) -/\ndef genCaValidityDays : Nat := {ca_days}\ndef genEntityValidityDays : Nat := {en_days}\ndef genNoExpirySkipsValidity : Bool := {}", ca_guarded && en_guarded);
+    let _ = writeln!(s, "/-- {vr_rel}: the range is [now - n days, now + n days] -/\ndef genValiditySymmetric : Bool := {symmetric}\ndef genSecondsInDay : Nat := {sid}");
+    g.emit("Tls", &[q_rel, c_rel, cb_rel, cg_rel, kp_rel, vr_rel], &s);
     Ok(())
 }
 
